@@ -165,8 +165,10 @@ def is_facet_inwards(face, faces):
     orient /= np.linalg.norm(orient)  # for single facet numpy is fine
 
     # create a check point by displacing the facet center in facet orientation direction
+    # (relative to the extent of the mesh)
     eps = 1e-5  # unfortunately this must be quite a 'large' number :(
-    check_point = face.mean(axis=0) + orient * eps
+    size = np.max(np.ptp(faces.reshape((-1, 3)), axis=0))
+    check_point = face.mean(axis=0) + orient * eps * size
 
     # find out if first point is inwards
     return mask_inside_trimesh(np.array([check_point]), faces)[0]
@@ -411,6 +413,14 @@ def get_intersecting_triangles(vertices, triangles, r=None, r_factor=1.5, eps=1e
     if r_factor < 1:  # pragma: no cover
         raise ValueError("r_factor must be greater or equal to 1")
 
+    # make the problem dimensionless (mesh centered, extent 1): `eps` is an absolute number
+    # and the computation runs in single precision
+    vmin, vmax = np.min(vertices, axis=0), np.max(vertices, axis=0)
+    size = np.max(vmax - vmin)
+    if size > 0:
+        vertices = (vertices - (vmin + vmax) / 2) / size
+        if r is not None:
+            r = r / size
     vertices = vertices.astype(np.float32)
     facets = vertices[triangles]
     centers = np.mean(facets, axis=1)
@@ -476,6 +486,16 @@ def mask_inside_trimesh(points: np.ndarray, faces: np.ndarray) -> np.ndarray:
     Faces must form a closed mesh for this to work.
     """
     vertices = faces.reshape((-1, 3))
+
+    # make the problem dimensionless (mesh centered, extent 1): the tolerances and the
+    # ray start point below are absolute numbers
+    vmin, vmax = np.min(vertices, axis=0), np.max(vertices, axis=0)
+    size = np.max(vmax - vmin)
+    if size > 0:
+        center = (vmin + vmax) / 2
+        points = (points - center) / size
+        faces = (faces - center) / size
+        vertices = faces.reshape((-1, 3))
 
     # test-points inside of enclosing box
     mask_inside = mask_inside_enclosing_box(points, vertices)
